@@ -41,6 +41,7 @@ import (
 	"github.com/linuxboot/fiano/pkg/utk"
 	"github.com/linuxboot/fiano/pkg/visitors"
 	. "verifharness/common"
+	"verifharness/nvargen"
 	"verifharness/uefigen"
 	"verifharness/uefiops"
 )
@@ -144,6 +145,18 @@ func allPaths(f uefi.Firmware) []string {
 		add(x.ExtractPath)
 		for _, y := range x.Sections {
 			out = append(out, allPaths(y)...)
+		}
+		if x.NVarStore != nil {
+			out = append(out, allPaths(x.NVarStore)...)
+		}
+	case *uefi.NVarStore:
+		for _, y := range x.Entries {
+			out = append(out, allPaths(y)...)
+		}
+	case *uefi.NVar:
+		add(x.ExtractPath)
+		if x.NVarStore != nil {
+			out = append(out, allPaths(x.NVarStore)...)
 		}
 	case *uefi.Section:
 		add(x.ExtractPath)
@@ -286,6 +299,85 @@ func opGUIDParse(args []string) string {
 		return "err"
 	}
 	return "ok " + H(g[:])
+}
+
+func fnv32(b []byte) uint32 {
+	h := uint32(2166136261)
+	for _, x := range b {
+		h ^= uint32(x)
+		h *= 16777619
+	}
+	return h
+}
+
+// findNvarFile returns the first file of the tree that carries an NVAR store.
+func findNvarFile(f uefi.Firmware) *uefi.File {
+	switch n := f.(type) {
+	case *uefi.BIOSRegion:
+		for _, e := range n.Elements {
+			if x := findNvarFile(e.Value); x != nil {
+				return x
+			}
+		}
+	case *uefi.FirmwareVolume:
+		for _, y := range n.Files {
+			if y.NVarStore != nil {
+				return y
+			}
+		}
+	}
+	return nil
+}
+
+// nvdir img store: img holds exactly one NVAR store file whose body is store.  Observation: the files
+// extract writes below that file's directory (relative path, length, hash of the content; sorted) and
+// the bytes of the store after extract + save-from-directory (model: Model/ExtractNvar.v on the store).
+func opNvDir(args []string) string {
+	img := UnH(args[0])
+	if !parses(img) {
+		return "err"
+	}
+	w, err := newWork(img)
+	if err != nil {
+		return "harness-error " + err.Error()
+	}
+	defer w.close()
+	if err := run(w.img, "extract", w.dir); err != nil {
+		return "err-extract"
+	}
+	marker := "/" + uefi.NVAR.String() + "/"
+	var items []string
+	for _, p := range listFiles(w.dir) {
+		i := strings.Index(p, marker)
+		if i < 0 {
+			continue
+		}
+		rel := p[i+len(marker):]
+		j := strings.Index(rel, "/") // the running index directory
+		if j < 0 {
+			continue
+		}
+		rel = rel[j+1:]
+		b, err := os.ReadFile(filepath.Join(w.dir, p))
+		if err != nil {
+			return "harness-error " + err.Error()
+		}
+		items = append(items, fmt.Sprintf("%s:%x:%x", rel, len(b), fnv32(b)))
+	}
+	sort.Strings(items)
+	out := filepath.Join(w.tmp, "out.rom")
+	if err := run(w.dir, "save", out); err != nil {
+		return "err-asm"
+	}
+	t, err := treeOf(out)
+	if err != nil {
+		return "err-reparse"
+	}
+	nf := findNvarFile(t)
+	if nf == nil || int(nf.DataOffset) > len(nf.Buf()) {
+		return "err-nostore"
+	}
+	return fmt.Sprintf("ok %x %s | %s", len(items), strings.Join(items, " "), H(nf.Buf()[nf.DataOffset:]))
 }
 
 func firstDiff(a, b []byte) string {
@@ -951,28 +1043,34 @@ func genDepexBytes(r *Rng) []byte {
 	return append(b, 8)
 }
 
-// nvarStoreFile builds a raw file carrying a small, canonical NVAR store: valid entries with an inline
-// GUID and an ASCII name (distinct names), erased free space, no GUID table.
+// nvarStoreFile builds a raw file carrying an NVAR store of the shared grammar (harness/nvargen): full
+// entries, link chains, data-only entries without a link, entries with the valid bit cleared, broken
+// extended headers, bare headers, optionally nested stores.
 func nvarStoreFile(r *Rng) *uefigen.File {
-	var store []byte
-	n := r.Range(1, 4)
-	for i := 0; i < n; i++ {
-		var body []byte
-		body = append(body, r.Bytes(16)...)
-		name := fmt.Sprintf("Var%d%c", i, 'A'+r.Intn(26))
-		body = append(body, name...)
-		body = append(body, 0)
-		body = append(body, r.Bytes(r.Range(1, 12))...)
-		sz := 10 + len(body)
-		store = append(store, 'N', 'V', 'A', 'R', byte(sz), byte(sz>>8), 0xFF, 0xFF, 0xFF, 0x86)
-		store = append(store, body...)
-	}
-	for i := r.Range(16, 64); i > 0; i-- {
-		store = append(store, 0xFF)
-	}
-	f := &uefigen.File{Type: 1, State: 0xF8, Body: store}
+	st := nvargen.Gen(r, 0xFF, r.Pick(0, 0, 1))
+	f := &uefigen.File{Type: 1, State: 0xF8, Body: st.Bytes()}
 	copy(f.GUID[:], uefi.NVAR[:])
 	return f
+}
+
+// genNvarImage: a region whose volumes carry one or two NVAR store files next to ordinary files.
+func genNvarImage(r *Rng) []byte {
+	o := uefigen.Opts{MaxDepth: 0, Strings: true, Alignments: false}
+	reg := uefigen.GenRegion(r, o)
+	n := 0
+	for _, e := range reg.Elems {
+		if e.Vol != nil && (e.Vol.FSGUID == uefigen.FFS2 || e.Vol.FSGUID == uefigen.FFS3) && (n == 0 || r.Chance(1, 3)) {
+			f := nvarStoreFile(r)
+			k := r.Intn(len(e.Vol.Files) + 1)
+			e.Vol.Files = append(e.Vol.Files[:k], append([]*uefigen.File{f}, e.Vol.Files[k:]...)...)
+			n++
+		}
+	}
+	if n == 0 {
+		return nil
+	}
+	img, _ := uefigen.EmitRegion(reg)
+	return img
 }
 
 // countSections parses img in the generator process and counts the sections each edit kind applies to.
@@ -1206,6 +1304,35 @@ func gen(r *Rng, tier string, emit Emit) {
 		emit("C", "xpaths", H(img))
 		emit("C", "dirsave", H(img))
 	}
+	// NVAR stores (implementation oracles; the model of their directory is Model/ExtractNvar.v)
+	nnv := 40
+	if tier == "thorough" {
+		nnv = 1500
+	}
+	for i := 0; i < nnv; i++ {
+		// one volume, one store: the directory of the store against the model
+		rr := r.Fork(uint64(4000000 + i))
+		st := nvargen.Gen(rr, 0xFF, rr.Pick(0, 0, 1))
+		sb := st.Bytes()
+		nf := &uefigen.File{Type: 1, State: 0xF8, Body: sb}
+		copy(nf.GUID[:], uefi.NVAR[:])
+		v := &uefigen.Vol{FSGUID: uefigen.FFS2, Attrs: 0x4FEFF, Revision: 2, BlockSize: 64, Files: []*uefigen.File{nf}, FreeSpace: rr.Pick(0, 8, 100)}
+		if rr.Bool() {
+			v.Files = append([]*uefigen.File{uefigen.GenFile(rr, uefigen.Opts{Strings: true}, 0)}, v.Files...)
+		}
+		simg, _ := uefigen.EmitRegion(&uefigen.Region{Elems: []uefigen.Elem{{Vol: v}}})
+		if len(simg) <= 12000 {
+			emit("C", "nvdir", H(simg), H(sb))
+		}
+	}
+	for i := 0; i < nnv; i++ {
+		img := genNvarImage(r.Fork(uint64(3000000 + i)))
+		if img == nil || len(img) > 60000 {
+			continue
+		}
+		emit("P", "p_roundtrip", H(img), "x")
+		emit("P", "p_paths", H(img))
+	}
 	for it := 0; it < n; it++ {
 		rr := r.Fork(uint64(it))
 		var img []byte
@@ -1300,6 +1427,7 @@ func main() {
 	Register("xpaths", opXPaths)
 	Register("dirsave", opDirSave)
 	Register("saveproj", opSaveProj)
+	Register("nvdir", opNvDir)
 	Register("guidstr", opGUIDStr)
 	Register("guidparse", opGUIDParse)
 	Register("p_roundtrip", pRoundTrip)
